@@ -384,6 +384,12 @@ fn universe(apex: &Lbls, q: &Lbls) -> Vec<Lbls> {
         }
         layer = next;
     }
+    // a few host-style names so that hand-written corpus cases have an owner in the universe
+    for l in [&b"www"[..], b"mail", b"sub"] {
+        let mut m = vec![l.to_vec()];
+        m.extend(apex.clone());
+        u.insert(m);
+    }
     for k in apex.len()..=q.len() {
         let a = suffix(q, k);
         let mut w = vec![b"*".to_vec()];
